@@ -53,7 +53,7 @@ M = [
     ("vyukov_strong_push_full_check", "C05", "xenium/vyukov_bounded_queue.hpp",
      "REPLACE_WITH_SCRIPT", ""),
     ("nikolaev_bounded_threshold", "C05", "xenium/detail/nikolaev_scq.hpp",
-     "      const auto threshold = static_cast<std::int64_t>(n + capacity - 1);", "      const auto threshold = static_cast<std::int64_t>(capacity - 1);"),
+     "      const auto threshold = static_cast<std::int64_t>(n + capacity - 1);", "      const auto threshold = static_cast<std::int64_t>(capacity > 2 ? 1 : 0);"),
     ("kirsch_find_index_scans_k_minus_1", "C06", "xenium/kirsch_kfifo_queue.hpp",
      "REPLACE_WITH_SCRIPT", ""),
     ("kirsch_bounded_index_16_bits", "C06", "xenium/kirsch_bounded_kfifo_queue.hpp",
